@@ -81,3 +81,33 @@ Example honest_served :
   p_served (prun false evs) = [[Sealed; Sealed; Sealed]] /\ p_served (prun true evs) = [[Sealed; Sealed; Sealed]] /\
   p_leftover (prun false evs) = false.
 Proof. repeat split; vm_compute; reflexivity. Qed.
+
+(** with reads that stop at the end of a message no finish is ever handled with plaintext behind it *)
+Lemma framed_fold by_origin evs : forall s,
+  framed (length (p_buf s)) evs = true -> p_leftover s = false ->
+  p_leftover (fold_left (pstep by_origin) evs s) = false.
+Proof.
+  induction evs as [|e evs IH]; intros s F L; cbn [fold_left]; [exact L|].
+  destruct e as [k|n prot fin]; cbn [framed] in F.
+  - apply IH.
+    + cbn [pstep]. destruct (p_pending s || p_encrypted s)%bool; cbn [p_buf]; rewrite app_length, repeat_length; exact F.
+    + cbn [pstep]. destruct (p_pending s || p_encrypted s)%bool; exact L.
+  - cbn [pstep]. destruct (length (p_buf s) <? n) eqn:E; [apply IH; assumption|].
+    apply andb_true_iff in F. destruct F as [Fe F]. apply Nat.eqb_eq in Fe.
+    assert (R : skipn n (p_buf s) = []) by (apply skipn_all2; lia).
+    destruct prot.
+    + destruct (if by_origin then all_sealed (firstn n (p_buf s)) else p_encrypted s);
+        (apply IH; [cbn [p_buf]; rewrite R; exact F|exact L]).
+    + destruct fin; (apply IH; [cbn [p_buf]; rewrite R; exact F|]); cbn [p_leftover]; [|exact L].
+      rewrite R, L. reflexivity.
+Qed.
+
+Theorem framed_reads_serve_only_sealed evs :
+  framed 0 evs = true -> served_ok (prun false evs).
+Proof.
+  intros F. apply by_state_without_leftover. apply (framed_fold false evs pinit); [exact F|reflexivity].
+Qed.
+
+(** the history of the finding is not one the repaired connection can produce *)
+Example injected_is_not_framed : framed 0 injected = false.
+Proof. reflexivity. Qed.
